@@ -1,10 +1,12 @@
 (* C03 - property theorems.  Only statements, each closed by [exact], each followed by
    Print Assumptions.  Examples showing that the hypotheses are satisfiable on non-trivial inputs:
    Proofs/PropGrid.v (prop_check_Z_example, prop_check_b64_example, laws_Z),
-   Proofs/PropHeapKey.v (heap_example), Proofs/PropKey.v (key_collision_example). *)
+   Proofs/PropHeapKey.v (heap_example), Proofs/PropKey.v (key_collision_example),
+   Proofs/PropDijkstra.v (dijkstra_example). *)
 From Coq Require Import ZArith List Bool Permutation.
+From Coq Require PrimFloat.
 From Centro Require Import Base.Sx Base.PropFloat Model.PropHeap Model.Propagate Spec.PropSpec Spec.PropCheck
-     Proofs.PropPotential Proofs.PropGrid Proofs.PropKey Proofs.PropHeapInv Proofs.PropHeapKey.
+     Proofs.PropPotential Proofs.PropGrid Proofs.PropKey Proofs.PropHeapInv Proofs.PropHeapKey Proofs.PropDijkstra.
 Import ListNotations.
 Open Scope Z_scope.
 
@@ -131,6 +133,22 @@ Theorem C03_key_strict_refuted : forall c, 0 <= c -> 2 * c + 1 < two63 ->
   key Dropped (2 * c) = key Dropped (2 * c + 1).
 Proof. exact key_dropped_collision. Qed.
 Print Assumptions C03_key_strict_refuted.
+
+(* --- the main loop of the model -------------------------------------------------------------- *)
+
+(* dijkstra_sound: for every input (non-negative labels), both key layouts, and whatever order the
+   heap delivers rows in, every distance the model reports is -1 (untouched), 0 at a seed, or the
+   cost (folded as the code folds it: step + accumulated, binary64) of a real 8-connected mask
+   path from a masked seed.  [propagate .. = Some] excludes only the out-of-fuel result, which the
+   correspondence would report as a mismatch (fuel sufficiency is not proved). *)
+Theorem C03_dijkstra_sound : forall key image labels mask m n weight lo d,
+  shape labels m n -> (forall v, inr m n v -> 0 <= labv labels v) ->
+  propagate key image labels mask m n weight = Some (lo, d) ->
+  forall v, inr m n v ->
+    let x := get2 PrimFloat.zero d (fst v) (snd v) in
+    x = neg_one \/ (x = PrimFloat.zero /\ 0 < labv labels v) \/ reach image mask m n weight labels v x.
+Proof. exact dijkstra_sound. Qed.
+Print Assumptions C03_dijkstra_sound.
 
 (* --- optimality of the code as written: refuted by the faithful model (finding F7) ----------- *)
 (* dijkstra_optimal: "for every input the Dropped-key model's output passes prop_check" is FALSE;
